@@ -19,6 +19,15 @@ functions = [
      'subst': [(r'decoder_->bitstream_version\(\)', 'self->bitstream_version', 4), (r'!decoder_->buffer\(\)->Decode\(&num_attribute_data\)', '!DecoderBuffer_Decode_u8(self->buffer, &num_attribute_data)', 1),
                (r'!decoder_->buffer\(\)->Decode\(&(\w+)\)', r'!DecoderBuffer_Decode_u32(self->buffer, &\1)', 4), (r'!DecodeVarint\(&(\w+), decoder_->buffer\(\)\)', r'!DecodeVarint_u32(&\1, self->buffer)', 4),
                (r'std::numeric_limits<CornerIndex::ValueType>::max\(\)', 'UINT32_MAX', 1), (r'\bnum_encoded_vertices_\b', 'self->num_encoded_vertices_', 3)]},
+    # prologue of MeshEdgebreakerDecoderImpl::CreateAttributesDecoder: which attribute connectivity data a new attribute decoder claims
+    {'name': 'Edgebreaker_ClaimAttributeData', 'file': EB,
+     'region': r'::CreateAttributesDecoder\(\s*int32_t att_decoder_id\) \{\n(.*?)\n\s*const Mesh \*mesh = decoder_->mesh\(\);', 'region_tail': 'self->traversal_method = (int)traversal_method; return true;',
+     'sig': 'bool Edgebreaker_ClaimAttributeData(struct ClaimCtx *self, int32_t att_decoder_id)',
+     'subst': [(r'!decoder_->buffer\(\)->Decode\(&att_data_id\)', '!DecoderBuffer_Decode_i8(self->buffer, &att_data_id)', 1), (r'!decoder_->buffer\(\)->Decode\(&(decoder_type|traversal_method_encoded)\)', r'!DecoderBuffer_Decode_u8(self->buffer, &\1)', 2),
+               (r'attribute_data_\.size\(\)', 'self->num_attribute_data', 1), (r'attribute_data_\[att_data_id\]\.decoder_id', 'self->attribute_data_decoder_id[att_data_id]', 2),
+               (r'\bpos_data_decoder_id_\b', 'self->pos_data_decoder_id_', 2), (r'decoder_->bitstream_version\(\)', 'self->bitstream_version', 1),
+               (r'MeshTraversalMethod traversal_method = MESH_TRAVERSAL_DEPTH_FIRST;', 'int traversal_method = MESH_TRAVERSAL_DEPTH_FIRST;', 1),
+               (r'static_cast<MeshTraversalMethod>\(traversal_method_encoded\)', '(int)traversal_method_encoded', 1)]},
     {'name': 'KdOutIt_assign_vec3', 'file': 'src/draco/compression/attributes/kd_tree_attributes_decoder.cc',
      'anchor': r'const Self &operator=\(const VectorD<CoeffT, 3> &val\)\s*\{', 'sig': 'void KdOutIt_assign_vec3(struct KdOutIt *self, const uint32_t *val)',
      'subst': [(r'AttributeTuple &att = attributes_\[0\];', 'struct AttTuple *att = &self->attributes_[0];', 1), (r'PointAttribute \*attribute = std::get<0>\(att\);', 'struct PAStub *attribute = att->attribute;', 1),
@@ -27,9 +36,11 @@ functions = [
                (r'const uint32_t &offset = std::get<1>\(att\);', 'const uint32_t offset = att->offset;', 1),
                (r'attribute->SetAttributeValue\(avi, &val\[0\] \+ offset\)', 'PA_SetAttributeValue(attribute, avi, &val[0] + offset)', 1), (r'return \*this;', 'return;', 1)]},
 ]
-UNIT = {'name': 'guards', 'structs': [], 'consts': [], 'functions': functions,
+UNIT = {'name': 'guards', 'structs': [], 'consts': [{'const': 'MESH_TRAVERSAL_DEPTH_FIRST', 'file': 'src/draco/compression/config/compression_shared.h', 'regex': r'MESH_TRAVERSAL_DEPTH_FIRST = (\d+),'},
+        {'const': 'NUM_TRAVERSAL_METHODS', 'file': 'src/draco/compression/config/compression_shared.h', 'regex': r'MESH_TRAVERSAL_PREDICTION_DEGREE = (\d+),\s*NUM_TRAVERSAL_METHODS', 'expr': '({}) + 1'}], 'functions': functions,
         'pre_text': ['struct GuardCtx { uint16_t bitstream_version; struct DecoderBuffer *buffer; int64_t remaining_at_entry; int32_t num_encoded_vertices_;\n'
                      '                  uint32_t num_faces, num_encoded_vertices, num_encoded_symbols, num_encoded_split_symbols; };',
+                     'struct ClaimCtx { struct DecoderBuffer *buffer; uint16_t bitstream_version; size_t num_attribute_data; int32_t *attribute_data_decoder_id; int32_t pos_data_decoder_id_; int traversal_method; uint8_t decoder_type_seen; };',
                      'struct PAStub { uint32_t size; uint32_t mapped; };\nstruct AttTuple { struct PAStub *attribute; uint32_t offset; };\nstruct KdOutIt { struct AttTuple *attributes_; uint32_t point_id_; };']}
 SRC = 'contracts/guards.c'
 DEFS = ['-DDRACO_BACKWARDS_COMPATIBILITY_SUPPORTED']
@@ -42,6 +53,7 @@ J('AttributesDecoder.prologue.contract', 'h_enf_AttributesDecoder_Prologue', ['C
   replace=['DecoderBuffer_Decode_u32', 'DecodeVarint_u32', 'DecoderBuffer_remaining_size', 'alloc_table'])
 J('Edgebreaker.header.contract', 'h_enf_Edgebreaker_Header', ['C18', 'C02'], enforce='Edgebreaker_Header',
   replace=['DecoderBuffer_Decode_u32', 'DecodeVarint_u32', 'DecoderBuffer_Decode_u8'])
+J('Edgebreaker.claim_attribute_data.contract', 'h_enf_Edgebreaker_ClaimAttributeData', ['C03', 'C02'], enforce='Edgebreaker_ClaimAttributeData', replace=['DecoderBuffer_Decode_i8', 'DecoderBuffer_Decode_u8'])
 J('KdOutIt.assign_vec3.contract', 'h_enf_KdOutIt_assign_vec3', ['C02', 'C03'], enforce='KdOutIt_assign_vec3', replace=['PA_mapped_index', 'PA_size', 'PA_SetAttributeValue'])
 TYPES_PRELUDE = ['core_types.h']
 COSIM = False
